@@ -34,6 +34,8 @@ def tree(kind):
         "excl/K.FOR": "m_k", "excl/h.f90": "m_h", "excl/inner/i.f90": "m_i", "excl/inner/z.F90": "m_z",
         ".hidden/j.f90": "m_j", "x.f90/k.f08": "m_k08", "docs/readme.txt": "x_readme",
         "only_inc/v.inc": "m_v_inc",
+        # suffixes that are more than the text after the last dot
+        "tmpl.F90.in": "m_tmpl_in", "sub/kern_gen": "m_kern_gen", "sub/t2.F90.in": "m_t2_in", "old.F90.in.bak": "x_in_bak", "only_tmpl/w.F90.in": "m_w_in",
     }
     if kind == "nested_only":
         T = {k: v for k, v in T.items() if "/" in k}
@@ -47,7 +49,7 @@ SOURCE_DIRS = [None, ["sub"], ["sub/**"], ["**"], [".", "sub"], ["nonexistent"],
                ["sub", "docs/../excl", "./excl/inner/"]]
 EXCL_PATHS = [[], ["excl"], ["excl/**"], ["sub/a.f90"], ["**/*.F90"], ["excl", "sub/deep"], ["<ABS>/excl/inner"],
               ["docs/../excl/h.f90", "sub/../sub/a.f90", "excl/inner/../inner"]]
-INCL_SUFFIXES = [[], [".inc"], ["inc"], [".FYP"]]
+INCL_SUFFIXES = [[], [".inc"], ["inc"], [".FYP"], [".F90.in", "_gen"]]
 EXCL_SUFFIXES = [[], [".F90"], ["_tmp.f90"]]
 
 
